@@ -976,6 +976,8 @@ class _Simu(_IObserver, _params.Updatable, ABC):
             self.Need_Update()
         elif isinstance(observable, Mesh):
             self._Check_dim_mesh_material()
+            # the geometry changed: values cached from it (e.g. constant mass matrices) are outdated
+            clear_cached_computed_values(self)
             self.Need_Update()
         else:
             Terminal.MyPrintError("Notification not yet implemented")
